@@ -1,2 +1,142 @@
-(* C11 - statements only (proofs pending). *)
+(* C11 - variables are expanded with Ninja's scoping rules.  Statements only. *)
+From Coq Require Import String.
 From N2 Require Import Model.All.
+From N2 Require Import Proofs.EvalScope Proofs.EvalFiles Proofs.GraphLoad.
+
+(* 1. a reference found in env i is expanded in envs i+1.. only *)
+Theorem C11_first_env_wins : forall e rest v es, assoc_b v e = Some es -> eval_var (e :: rest) v = evaluate rest es.
+Proof. exact eval_first_env_wins. Qed.
+Print Assumptions C11_first_env_wins.
+
+Theorem C11_skip_env : forall e rest v, assoc_b v e = None -> eval_var (e :: rest) v = eval_var rest v.
+Proof. exact eval_skip_env. Qed.
+Print Assumptions C11_skip_env.
+
+(* 2. undefined variables expand to the empty string *)
+Theorem C11_undefined_is_empty : forall envs v, (forall e, In e envs -> assoc_b v e = None) -> eval_var envs v = [].
+Proof. exact eval_undefined. Qed.
+Print Assumptions C11_undefined_is_empty.
+
+Theorem C11_undefined_evaluates_empty : forall envs v, (forall e, In e envs -> assoc_b v e = None) -> evaluate envs [Var v] = [].
+Proof. exact evaluate_undefined. Qed.
+Print Assumptions C11_undefined_evaluates_empty.
+
+(* 3. evaluate is a homomorphism; literals are copied verbatim *)
+Theorem C11_evaluate_app : forall envs a b, evaluate envs (a ++ b) = evaluate envs a ++ evaluate envs b.
+Proof. exact evaluate_app. Qed.
+Print Assumptions C11_evaluate_app.
+
+Theorem C11_evaluate_lit : forall envs s, evaluate envs [Lit s] = s.
+Proof. exact evaluate_lit. Qed.
+Print Assumptions C11_evaluate_lit.
+
+Theorem C11_evaluate_var : forall envs v, evaluate envs [Var v] = eval_var envs v.
+Proof. exact evaluate_var. Qed.
+Print Assumptions C11_evaluate_var.
+
+(* keys *)
+Theorem C11_assoc_insert_same : forall (V : Type) k (v : V) l, assoc_b k (insert_b k v l) = Some v.
+Proof. exact @assoc_insert_same. Qed.
+Print Assumptions C11_assoc_insert_same.
+
+Theorem C11_assoc_insert_other : forall (V : Type) k x (v : V) l, k <> x -> assoc_b k (insert_b x v l) = assoc_b k l.
+Proof. exact @assoc_insert_other. Qed.
+Print Assumptions C11_assoc_insert_other.
+
+(* 4. file-level bindings are expanded when defined, top-down *)
+Theorem C11_top_down : forall vs x v, bind_step vs x v = insert_b x (evaluate [vars_env vs] v) vs /\ assoc_b x (bind_step vs x v) = Some (evaluate [vars_env vs] v) /\ (forall k, k <> x -> assoc_b k (bind_step vs x v) = assoc_b k vs).
+Proof. exact top_down. Qed.
+Print Assumptions C11_top_down.
+
+Theorem C11_file_var_value : forall vs y, eval_var [vars_env vs] y = match assoc_b y vs with Some s => s | None => [] end.
+Proof. exact eval_var_file1. Qed.
+Print Assumptions C11_file_var_value.
+
+Theorem C11_value_depends_on_mentioned : forall vs vs' v, (forall y, In y (es_vars v) -> assoc_b y vs = assoc_b y vs') -> evaluate [vars_env vs] v = evaluate [vars_env vs'] v.
+Proof. exact value_depends_on_mentioned. Qed.
+Print Assumptions C11_value_depends_on_mentioned.
+
+Theorem C11_later_rebinding_no_effect : forall vs x v y w k, k <> y -> assoc_b k (bind_step (bind_step vs x v) y w) = assoc_b k (bind_step vs x v).
+Proof. exact later_rebinding_no_effect. Qed.
+Print Assumptions C11_later_rebinding_no_effect.
+
+(* 5. x = $x-suffix uses the old value *)
+Theorem C11_self_reference : forall vs x s, assoc_b x (bind_step vs x [Var x; Lit s]) = Some ((match assoc_b x vs with Some old => old | None => [] end) ++ s).
+Proof. exact self_reference. Qed.
+Print Assumptions C11_self_reference.
+
+(* 6. an attribute bound in the build block is expanded in file scope only *)
+Theorem C11_build_binding_in_file_scope : forall bvars rule implicit fenv key v, assoc_b key bvars = Some v -> attr_lookup bvars rule implicit fenv key = Some (evaluate [fenv] v).
+Proof. exact build_binding_in_file_scope. Qed.
+Print Assumptions C11_build_binding_in_file_scope.
+
+Theorem C11_build_binding_independent : forall bvars bvars' rule rule' implicit implicit' fenv key v, assoc_b key bvars = Some v -> assoc_b key bvars' = Some v -> attr_lookup bvars rule implicit fenv key = attr_lookup bvars' rule' implicit' fenv key.
+Proof. exact build_binding_independent. Qed.
+Print Assumptions C11_build_binding_independent.
+
+Theorem C11_sibling_not_visible : forall bvars rule implicit fenv key y w, assoc_b key bvars = Some [Var y] -> assoc_b y bvars = Some w -> assoc_b y fenv = None -> attr_lookup bvars rule implicit fenv key = Some [].
+Proof. exact sibling_not_visible. Qed.
+Print Assumptions C11_sibling_not_visible.
+
+(* 7. otherwise the rule's binding: $in/$out, then the build block, then file scope *)
+Theorem C11_rule_binding_chain : forall bvars rule implicit fenv key v, assoc_b key bvars = None -> assoc_b key rule = Some v -> attr_lookup bvars rule implicit fenv key = Some (evaluate [implicit; bvars; fenv] v).
+Proof. exact rule_binding_chain. Qed.
+Print Assumptions C11_rule_binding_chain.
+
+Theorem C11_attr_absent : forall bvars rule implicit fenv key, assoc_b key bvars = None -> assoc_b key rule = None -> attr_lookup bvars rule implicit fenv key = None.
+Proof. exact attr_absent. Qed.
+Print Assumptions C11_attr_absent.
+
+Theorem C11_chain_implicit_first : forall (implicit bvars fenv : env) y es, assoc_b y implicit = Some es -> eval_var [implicit; bvars; fenv] y = evaluate [bvars; fenv] es.
+Proof. exact chain_implicit_first. Qed.
+Print Assumptions C11_chain_implicit_first.
+
+Theorem C11_chain_build_shadows_file : forall (implicit bvars fenv : env) y es, assoc_b y implicit = None -> assoc_b y bvars = Some es -> eval_var [implicit; bvars; fenv] y = evaluate [fenv] es.
+Proof. exact chain_build_shadows_file. Qed.
+Print Assumptions C11_chain_build_shadows_file.
+
+Theorem C11_chain_file_last : forall (implicit bvars fenv : env) y, assoc_b y implicit = None -> assoc_b y bvars = None -> eval_var [implicit; bvars; fenv] y = eval_var [fenv] y.
+Proof. exact chain_file_last. Qed.
+Print Assumptions C11_chain_file_last.
+
+Theorem C11_magic_vars : forall l pb ins outs (bvars fenv : env), eval_var [implicit_env l pb ins outs; bvars; fenv] (bs "in") = join_names l (firstn (pb_explicit_ins pb) ins) 32%N /\ eval_var [implicit_env l pb ins outs; bvars; fenv] (bs "in_newline") = join_names l (firstn (pb_explicit_ins pb) ins) 10%N /\ eval_var [implicit_env l pb ins outs; bvars; fenv] (bs "out") = join_names l (firstn (pb_explicit_outs pb) outs) 32%N /\ eval_var [implicit_env l pb ins outs; bvars; fenv] (bs "out_newline") = join_names l (firstn (pb_explicit_outs pb) outs) 10%N.
+Proof. exact magic_vars. Qed.
+Print Assumptions C11_magic_vars.
+
+(* 8. paths on a build line see the build block's bindings, then file scope *)
+Theorem C11_evaluate_path_uses : forall l p envs, evaluate_path l p envs = match evaluate envs p with [] => Err (bs "empty path") | path => load_path l path end.
+Proof. exact evaluate_path_uses. Qed.
+Print Assumptions C11_evaluate_path_uses.
+
+Theorem C11_evaluate_paths_names : forall envs ps l l' ids, evaluate_paths l ps envs = Ok (l', ids) -> Ext l l' /\ Forall (fun id => id < length (l_files l')) ids /\ Forall2 (fun p id => canon (evaluate envs p) = Ok (file_nm l' id)) ps ids.
+Proof. exact evaluate_paths_spec. Qed.
+Print Assumptions C11_evaluate_paths_names.
+
+Theorem C11_paths_scope : forall fixed l filename fvars pb l', loader_add_build fixed l filename fvars pb = Ok l' -> exists l1 ins l2 outs rule b, evaluate_paths l (pb_ins pb) [pb_vars pb; vars_env fvars] = Ok (l1, ins) /\ evaluate_paths l1 (pb_outs pb) [pb_vars pb; vars_env fvars] = Ok (l2, outs) /\ assoc_b (pb_rule pb) (l_rules l2) = Some rule /\ lb_file b = filename /\ lb_line b = pb_line pb /\ lb_ins b = ins /\ lb_outs b = outs /\ lb_explicit_outs b = pb_explicit_outs pb /\ lb_cmdline b = attr_lookup (pb_vars pb) rule (implicit_env l2 pb ins outs) (vars_env fvars) (bs "command") /\ lb_desc b = attr_lookup (pb_vars pb) rule (implicit_env l2 pb ins outs) (vars_env fvars) (bs "description") /\ lb_depfile b = attr_lookup (pb_vars pb) rule (implicit_env l2 pb ins outs) (vars_env fvars) (bs "depfile") /\ graph_add_build fixed l2 b = Ok l'.
+Proof. exact loader_add_build_ok. Qed.
+Print Assumptions C11_paths_scope.
+
+(* 9. file boundaries *)
+Theorem C11_parse_file_unfold : forall fixed depth fs l filename text inherited, parse_file fixed (S depth) fs l filename text inherited = (do s0 <- sc_new (text ++ [0%N]); stmts_loop fixed (parse_file fixed depth fs) fs (text ++ [0%N]) filename (S (length (text ++ [0%N]))) l s0 inherited).
+Proof. exact parse_file_unfold. Qed.
+Print Assumptions C11_parse_file_unfold.
+
+Theorem C11_child_scope_step : forall fixed rec fs buf filename n l s vs st p vs1 s1 l1 id content, st = SInclude p \/ st = SSubninja p -> parser_read fixed (parse_fuel buf) s vs = SOk (Some st, vs1) s1 -> evaluate_path l p [vars_env vs1] = Ok (l1, id) -> assoc_b (file_nm l1 id) fs = Some content -> stmts_loop fixed rec fs buf filename (S n) l s vs = (do l2 <- rec l1 (file_nm l1 id) content vs1; stmts_loop fixed rec fs buf filename n l2 s1 vs1).
+Proof. exact stmts_loop_child_scope. Qed.
+Print Assumptions C11_child_scope_step.
+
+Theorem C11_subninja_copy : exists l b0 b1, load_manifest true 5 [(bs "sub.ninja", ln "v1 = child" (ln "build p: r" []))] (bs "build.ninja") (ln "rule r" (ln "  command = c.$v0.$v1.$v2" (ln "v0 = top" (ln "subninja sub.ninja" (ln "v2 = late" (ln "build o: r" [])))))) = Ok l /\ l_builds l = [b0; b1] /\ lb_file b0 = bs "sub.ninja" /\ lb_cmdline b0 = Some (bs "c.top.child.") /\ lb_file b1 = bs "build.ninja" /\ lb_cmdline b1 = Some (bs "c.top..late").
+Proof. exact subninja_copy. Qed.
+Print Assumptions C11_subninja_copy.
+
+Theorem C11_include_extends_refuted : exists l b, load_manifest true 5 [(bs "inc.ninja", ln "v0=sub" [])] (bs "build.ninja") (ln "rule r" (ln "  command = c-$v0" (ln "include inc.ninja" (ln "build o: r" [])))) = Ok l /\ l_builds l = [b] /\ lb_cmdline b = Some (bs "c-").
+Proof. exact include_extends_refuted. Qed.
+Print Assumptions C11_include_extends_refuted.
+
+Theorem C11_include_sees_parent : exists l b, load_manifest true 5 [(bs "inc.ninja", ln "build o: r" [])] (bs "build.ninja") (ln "rule r" (ln "  command = c-$v0" (ln "v0 = top" (ln "include inc.ninja" [])))) = Ok l /\ l_builds l = [b] /\ lb_file b = bs "inc.ninja" /\ lb_cmdline b = Some (bs "c-top").
+Proof. exact include_sees_parent. Qed.
+Print Assumptions C11_include_sees_parent.
+
+Theorem C11_build_scope_example : exists l b, load_manifest true 5 [] (bs "build.ninja") (ln "x = file" (ln "y = filey" (ln "rule r" (ln "  command = $out.$x.$y.$z" (ln "  description = d.$x" (ln "build o$x: r" (ln "  x = bx.$x.$z" (ln "  z = bz" (ln "  description = e.$x.$z" []))))))))) = Ok l /\ l_builds l = [b] /\ lb_cmdline b = Some (bs "obx.file..bx.file..filey.bz") /\ lb_desc b = Some (bs "e.file.").
+Proof. exact build_scope_example. Qed.
+Print Assumptions C11_build_scope_example.
